@@ -69,6 +69,7 @@ def run(tier, seed, t0):
         "populations_run_by_several_threads": (b.get("populations_run_by_several_threads", 0), 1),
         "populations_with_success_and_failure": (b.get("populations_with_success_and_failure", 0), T(tier, 3, 100)),
         "populations_with_several_successes": (b.get("populations_with_several_successes", 0), T(tier, 3, 100)),
+        "axes_tilted_off_a_coordinate_axis": (b.get("axis_tilted_off_a_coordinate_axis", 0), T(tier, 15, 600)),
         "bystanders": (b.get("bystanders", 0), T(tier, 50, 3000)),
         "sections_with_several_contours": (sum(v for k, v in b.items() if k.endswith("|section_with_several_contours")), T(tier, 5, 500)),
         "plane_at_vertex_cases": (sum(v for k, v in b.items() if k.startswith("plane_exactly_through_vertex") or k.startswith("plane_within_1e-12L")), T(tier, 20, 1500)),
